@@ -1,5 +1,4 @@
 import HeraModel.Spec.Expr
-import HeraModel.Model.Cli
 /-
   Hand model of hera/debugger/miniparser.py (Pratt parser over the lexer's tokens) and of `Shell.evaluate_node`
   (hera/debugger/shell.py). The parser works on the token sequence that the real lexer produces (the harness sends
@@ -144,7 +143,6 @@ def toNode : Expr.E → Node
   | .lit v => .int v
   | .reg i => .reg i
   | .sym s => .sym s
-  | .pc => .sym (Str.ofString "pc")
   | .neg e => .prefix [45] (toNode e)
   | .deref e => .mem (toNode e)
   | .bin op l r => .infix (match op with | .add => [43] | .sub => [45] | .mul => [42] | .div => [47]) (toNode l) (toNode r)
